@@ -128,7 +128,14 @@ def run_case(i, seed, tier):
     cfg = g.cfg(index=i + seed * 37, require=lambda c: c.udf)
     ops2 = None
     virtual = False
-    if i % 200 == 7:
+    if i % 200 == 107:
+        # between 2 and 4 GiB: one ISO9660 extent, but three UDF allocation descriptors (each
+        # describes at most 0x3ffff800 bytes)
+        cfg = Cfg(level=3, udf=True)
+        ops = [{'op': 'add_fp', 'cid': 4100 + i, 'length': 2 * 0x3ffff800 + 5000 + i, 'iso_path': '/BIG3.;1', 'udf_path': '/big3'},
+               {'op': 'add_fp', 'cid': 4101 + i, 'length': 70000, 'iso_path': '/AFTER.;1', 'udf_path': '/after'}]
+        virtual = True
+    elif i % 200 == 7:
         cfg = Cfg(level=3, udf=True)
         ops = [{'op': 'add_directory', 'iso_path': '/D', 'udf_path': '/d'},
                {'op': 'add_fp', 'cid': 4000 + i, 'length': (1 << 32) + 5000 + i, 'iso_path': '/D/BIG.;1', 'udf_path': '/d/big'},
